@@ -370,6 +370,7 @@ def run_case(script):
       untagged.append((r, msg))
 
   untagged = []
+  escaped = []
 
   def watch_tags(_k=None):
     # the multiplexed transport publishes the tag it gives a request on the message's properties
@@ -471,7 +472,10 @@ def run_case(script):
     elif k == 'close':
       state['owner_closed'] = True
       ev.append({'e': 'OwnerClose', 't': ms()})
-      top.Close()
+      try:
+        top.Close()
+      except Exception as ex:     # an exception escaping from Close() is not judged by itself; what it leaves undone is
+        escaped.append(repr(ex)[:200])
       loop.run_until_idle()
     elif k == 'probe':
       st = quiet()
@@ -496,7 +500,7 @@ def run_case(script):
   quiet()
   ev.append({'e': 'End', 't': ms()})
   return {'cfg': {'t0': T0, 'kind': kind}, 'ev': ev,
-          'meta': {'errors': [list(e[1:3]) for e in loop.errors][:4]}}
+          'meta': {'errors': [list(e[1:3]) for e in loop.errors][:4], 'escaped': escaped[:4]}}
 
 
 def trace_for_tlc(t):
